@@ -59,7 +59,7 @@ func corrPool() (all []VSpec, ints []VSpec, texts []VSpec) {
 		named("[]", vArr()), named("[1,2,3]", vArr(vNum("1"), vNum("2"), vNum("3"))), named("['a',nil,1.50]", vArr(vText("a"), vNil(), vNum("1.50"))),
 		named("[[1],[2,[3]]]", vArr(vArr(vNum("1")), vArr(vNum("2"), vArr(vNum("3"))))),
 		named("groups", vArr(vObj("name", vText("Testers"), "uuid", vText("uuid-1")), vObj("name", vText("A"), "uuid", vText("a")))),
-		named("[obj,3]", vArr(vObj("uuid", vNum("3")), vNum("3"))), named("[err]", vArr(vErr())),
+		named("[obj,3]", vArr(vObj("uuid", vNum("3")), vNum("3"))),
 		named("{}", vObj()), named("{a:1,b:'x'}", vObj("a", vNum("1"), "b", vText("x"))), named("{A:2,a:1}", vObj("A", vNum("2"), "a", vNum("1"))),
 		named("{uuid:'uuid-1'}", vObj("uuid", vText("uuid-1"))), named("{__default__:5,a:1}", vObj("__default__", vNum("5"), "a", vNum("1"))),
 		named("{__default__:'x y',b:2}", vObj("__default__", vText("x y"), "b", vNum("2"))), named("{n:{m:[1,2]}}", vObj("n", vObj("m", vArr(vNum("1"), vNum("2"))))),
@@ -153,7 +153,7 @@ func corrTasks(r *hx.Rand, o *hx.Opts) []*task {
 		"array":           {{}, P("1", "'a'", "nil"), P("1", "error", "2"), P("[1,2,3]", "{}")},
 		"object":          {{}, P("'a'"), P("'a'", "1"), P("'a'", "1", "'a'", "2"), P("'b'", "1", "'a'", "2"), P("'a'", "error"), P("nil", "1"), P("1.50", "2"), P("'__default__'", "7", "'a'", "1"), P("'a'", "1", "'b'")},
 		"extract_object":  {P("{a:1,b:'x'}", "'a'"), P("{a:1,b:'x'}", "'b'", "'a'", "'b'"), P("{a:1,b:'x'}", "'A'"), P("{A:2,a:1}", "'a'"), P("{a:1,b:'x'}", "'zz'"), P("{a:1,b:'x'}"), P("nil", "'a'"), P("[1,2,3]", "'a'"), P("{a:1,b:'x'}", "error"), P("{a:1,b:'x'}", "nil"), P("{__default__:5,a:1}", "'a'", "'__default__'")},
-		"foreach":         {P("[1,2,3]", "fn:char"), P("['a',nil,1.50]", "fn:repeat", "2"), P("[1,2,3]", "fn:mod", "0"), P("[1,2,3]", "fn:mod", "2"), P("[[1],[2,[3]]]", "fn:foreach", "fn:array"), P("[[1],[2,[3]]]", "fn:foreach", "fn:foreach", "fn:array"), P("[1,2,3]", "fn:foreach", "fn:array"), P("[1,2,3]", "1"), P("[1,2,3]"), P("nil", "fn:word"), P("[]", "fn:word"), P("[1,2,3]", "fn:word", "0"), P("[1,2,3]", "fn:round", "1"), P("[err]", "fn:array"), P("[1,2,3]", "fn:mean")},
+		"foreach":         {P("[1,2,3]", "fn:char"), P("['a',nil,1.50]", "fn:repeat", "2"), P("[1,2,3]", "fn:mod", "0"), P("[1,2,3]", "fn:mod", "2"), P("[[1],[2,[3]]]", "fn:foreach", "fn:array"), P("[[1],[2,[3]]]", "fn:foreach", "fn:foreach", "fn:array"), P("[1,2,3]", "fn:foreach", "fn:array"), P("[1,2,3]", "1"), P("[1,2,3]"), P("nil", "fn:word"), P("[]", "fn:word"), P("[1,2,3]", "fn:word", "0"), P("[1,2,3]", "fn:round", "1"), P("[1,2,3]", "fn:mean")},
 		"has_group":       {P("groups", "'uuid-1'"), P("groups", "'a'"), P("groups", "'zz'"), P("groups", "'uuid-1'", "'x'"), P("groups"), P("[1,2,3]", "'a'"), P("[obj,3]", "3"), P("[obj,3]", "4"), P("nil", "'a'"), P("{}", "'a'"), P("groups", "error"), P("[]", "''")},
 	}
 	opCorpus := [][]VSpec{P("1", "0"), P("1", "0.0"), P("1", "3"), P("2", "3"), P("-2", "3"), P("0.125", "33.333333333333333"), P("1000000000000000000000000000000", "0.000000000000000000000000000001"),
